@@ -36,6 +36,8 @@ def sources(facts, fn, b, op, depth=0, seen=None):
     l = pl["l"]
     if fields[-2:-1] == ["flags"] or (len(fields) >= 2 and fields[-2] == "flags"):
         return {"flags." + fields[-1]}
+    if len(fields) == 1 and b.local_ty(l).replace("&", "").replace("mut ", "").strip().endswith("api::Flags"):
+        return {"flags." + fields[0]}     # `let flags = self.flags; .. flags.icase`
     # closure upvar: (*_1).<k>
     if l == 1 and "{closure" in fn and fields and fields[0].isdigit():
         parent, idx = closure_parent(facts, fn)
@@ -154,6 +156,17 @@ def check(facts):
                 key = "%s passes `%s` to %s #%d" % (base, nm, cal.split("::")[-1], argc[k_])
                 src = sources(facts, fn, b, a)
                 wrong = sorted(x for x in src if x.startswith("flags.") and x != "flags." + nm)
+                # i / m / s can be switched by a modifier group, so IR nodes carry their own copy: a value that arrives with the node
+                # (parameter, emitter stack, node field) is handed on as it is, not combined with the regex-wide flag again
+                mixed = nm in ("icase", "multiline", "dot_all") and ("flags." + nm) in src and \
+                    any(not x.startswith("flags.") and x != "const" and not x.startswith("other:BitAnd") and not x.startswith("other:Bit") for x in src)
+                if mixed and not wrong:
+                    r.fail(key, "the `%s` argument of %s (line %s) combines the flag that arrives with the node (%s) with the regex-wide "
+                                "`flags.%s`: inside a modifier group such as `(?i:…)` the node's flag is set while the regex-wide one is not, "
+                                "so this site (and not its cfg / executor sibling) drops the modifier" % (
+                                    nm, cal.split("::")[-1], t.get("line"), sorted(x for x in src if not x.startswith("flags.") and x != "const"), nm),
+                           facts.loc(fn, t.get("line")))
+                    continue
                 if wrong:
                     r.fail(key, "the `%s` argument of %s (line %s) is computed from %s: this call site applies `%s` semantics under a "
                                 "different flag than its siblings (e.g. the utf16 emitter folding v-mode class strings with the Unicode "
